@@ -8,6 +8,7 @@ import calendar
 import datetime
 import itertools
 import json
+import math
 from fractions import Fraction
 
 import numpy as np
@@ -15,7 +16,9 @@ import numpy as np
 import common
 from common import w_cells, w_cell, w_meta, w_date, w_rat, w_mval, canon_cell, call
 import gen
-from bermuda import Triangle, Metadata
+import bermuda
+from bermuda import Triangle, Metadata, TriangleSlice
+from bermuda.utils.slice import slice_to_triangle, triangle_to_slice
 
 D = datetime.date
 DAY = datetime.timedelta(days=1)
@@ -211,10 +214,14 @@ def unit_kind(unit):
     return None
 
 
-def lag_bound(rng, t, unit):
+def lag_bound(rng, t, unit, p_int=0.4):
     """(python bound for the implementation, exact rational for the model) or None if no
     float-consistent bound was found. Month lags of non-month-end dates are floats: bounds are the
-    triangle's own lags (bit-identical floats) and lags +-1; the model gets the exact lag."""
+    triangle's own lags (bit-identical floats) and lags +-1, or — with probability `p_int` — WHOLE
+    numbers of months given as Python / numpy integers (the calendar-month offset of a cell, the
+    floor / ceiling of its fractional lag, +-1: on a triangle with mid-month evaluation dates or
+    period ends these separate "whole months elapsed" from the documented fractional lag); the
+    model gets the exact rational."""
     kind = unit_kind(unit)
     cells = t.cells
     if not cells:
@@ -225,7 +232,12 @@ def lag_bound(rng, t, unit):
         for _ in range(6):
             i = rng.randrange(len(cells))
             r = rng.random()
-            if r < 0.5:
+            if rng.random() < p_int:
+                pe, ev = cells[i].period_end, cells[i].evaluation_date
+                off = 12 * (ev.year - pe.year) + ev.month - pe.month
+                b = rng.choice([off, off, math.floor(ex[i]), math.ceil(ex[i]), off - 1, off + 1])
+                bf, bq = (b if rng.random() < 0.8 else np.int64(b)), Fraction(b)
+            elif r < 0.5:
                 bf, bq = fl[i], ex[i]
             elif r < 0.8:
                 s = rng.choice([-1, 1])
@@ -283,6 +295,7 @@ def rand_clip(rng, t, single=False):
               "max_period": "maxPeriod"}[n]] = w_date(d)
     if not (unit == "month" and rng.random() < 0.5):
         kw["dev_lag_unit"] = unit      # else: rely on the default argument ("month")
+    wire["py_types"] = {n: type(v).__name__ for n, v in kw.items() if n in ("min_dev", "max_dev")}
     return kw, wire
 
 
@@ -333,6 +346,110 @@ def rand_idx(rng, t, which):
     return ("bad",)
 
 
+# falsy objects a period slice end may hold (`if not period_start: period_start = date.min`)
+FALSY_ENDS = [None, None, 0, "", False]
+
+
+def date_comp(rng, t, which, falsy_ends):
+    """(python object, wire) for the period / evaluation component of a tuple index: a date, a slice
+    whose ends are dates, None or (period only) another falsy object, or — rarely — something that
+    is neither (refused)"""
+    ix = rand_idx(rng, t, which)
+    if ix[0] == "d":
+        return ix[1], {"d": w_date(ix[1])}
+    if ix[0] == "s":
+        lo, hi = ix[1], ix[2]
+        plo = lo if lo is not None else (rng.choice(FALSY_ENDS) if falsy_ends else None)
+        phi = hi if hi is not None else (rng.choice(FALSY_ENDS) if falsy_ends else None)
+        return slice(plo, phi), {"s": [w_date(lo), w_date(hi)]}
+    m = Metadata(country="nowhere")
+    return rng.choice([(None, "falsy"), ("x", "junk"), (5, "junk"), (0, "falsy"), ([], "falsy"),
+                       (m, {"m": w_meta(m)}), ((1, 2), "junk")])
+
+
+def meta_comp(rng, t, metas):
+    """(python object, wire) for the metadata component of `t[period, evaluation, metadata]`"""
+    r = rng.random()
+    if r < 0.2 or not metas:
+        return slice(None, None, None), {"s": [None, None]}
+    if r < 0.35:
+        return rng.choice([None, [], 0, "", ()]), "falsy"
+    if r < 0.65:
+        m = rng.choice(metas)
+        return m, {"m": w_meta(m)}
+    if r < 0.72:
+        m = Metadata(country="nowhere", details={"zz": 1})
+        return m, {"m": w_meta(m)}
+    if r < 0.82:
+        # a list / tuple of metadata, a string, a number: `cell.metadata == x` is False for every cell
+        m = rng.choice(metas)
+        return rng.choice([[m], (m,), "US", 1, True, {"country": "US"}]), "junk"
+    if r < 0.92:
+        d = date_candidates(rng, t, "evaluation_date")
+        lo, hi = rng.choice([(d, None), (None, d), (d, d)])
+        return slice(lo, hi), {"s": [w_date(lo), w_date(hi)]}      # a slice other than `:`
+    d = date_candidates(rng, t, "period_start")
+    return d, {"d": w_date(d)}
+
+
+def pos_index(rng, n):
+    """(python object, wire): an integer position or a positional slice"""
+    if rng.random() < 0.5:
+        i = rng.choice([-n - 1, -n, -1, 0, n - 1, n, rng.randrange(-n - 2, n + 3), True, False])
+        return i, {"int": int(i)}
+    i = rng.choice([None, rng.randrange(-n - 2, n + 3)])
+    j = rng.choice([None, rng.randrange(-n - 2, n + 3)])
+    k = rng.choice([None, None, None, 1, 2, 3, -1, -2, 0])
+    return slice(i, j, k), {"pos": [i, j, k]}
+
+
+def malformed_index(rng, t, want_len):
+    """(python object, wire): an index that is neither int, slice nor a tuple of the wanted length"""
+    r = rng.random()
+    if r < 0.15:
+        return None, "nolen"
+    if r < 0.3:
+        d = date_candidates(rng, t, "period_start")
+        return d, "nolen"                                   # a bare date has no len()
+    if r < 0.4:
+        return 2.0, "nolen"
+    if r < 0.5:
+        s = "abcd"[:rng.choice([n for n in (0, 1, 2, 3, 4)])]
+        return s, {"tuple": ["junk"] * len(s)}              # a string: its characters are the components
+    n = rng.choice([k for k in (0, 1, 2, 3, 4) if k != want_len])
+    comps = [date_comp(rng, t, rng.choice(["period_start", "evaluation_date"]), False) for _ in range(n)]
+    py = [c[0] for c in comps]
+    return (tuple(py) if rng.random() < 0.7 else py), {"tuple": [c[1] for c in comps]}
+
+
+def item_dump(res):
+    """wire form of what `x[index]` gave: a triangle, a cell or an exception class"""
+    st, r = res
+    if st != "ok":
+        return {"err": r}
+    if isinstance(r, Triangle):
+        return {"ok": {"t": w_cells(r.cells)}}
+    if not isinstance(r, bermuda.Cell):
+        return {"err": f"returned a {type(r).__name__}, neither a Triangle nor a Cell"}
+    return {"ok": {"c": w_cell(r)}}
+
+
+def recomputed_num_samples(cells):
+    """`num_samples` recomputed from the cells (independent of the cached accessor)"""
+    sizes = {int(v.size) for c in cells for v in c.values.values() if isinstance(v, np.ndarray) and v.size > 1}
+    if len(sizes) > 1:
+        return ("err", "ValueError")
+    return ("ok", sizes.pop() if sizes else 1)
+
+
+def recomputed_consistent_shapes(cells):
+    by_field = {}
+    for c in cells:
+        for f, v in c.values.items():
+            by_field.setdefault(f, set()).add(int(np.size(v)))
+    return all(len(v) == 1 for v in by_field.values())
+
+
 def subsets(xs):
     for r in range(len(xs) + 1):
         for s in itertools.combinations(xs, r):
@@ -347,6 +464,20 @@ def correspondence(ctx):
     n_tri = 2500 if ctx.thorough else 330
     n_clip = 10 if ctx.thorough else 4
     reqs, cases = [], []
+
+    # objects for PRIMING calls: the same methods are called on these (other inputs, other index
+    # shapes) in the same process right before a call under test
+    pcells, _ = make_cells(rng)
+    prime_t = Triangle(pcells)
+    prime_s = triangle_to_slice(next(iter(prime_t.slices.values())))
+
+    def prime(rng):
+        d = date_candidates(rng, prime_t, "period_start")
+        e = date_candidates(rng, prime_t, "evaluation_date")
+        call(lambda: prime_s[rng.choice([d, slice(d, None), slice(None, d)]), rng.choice([e, slice(None, e)])])
+        call(lambda: prime_t[slice(None, d), slice(e, None), rng.choice([None, slice(None), prime_t.metadata[0]])])
+        call(lambda: prime_s[rng.randrange(-3, 3)])
+        call(lambda: TriangleSlice(prime_s.cells[:2]))
 
     for ti in range(n_tri):
         if rng.random() < 0.02:
@@ -396,6 +527,14 @@ def correspondence(ctx):
             ops.append(o)
             info.append(extra)
             ctx.count(f"op/{op['op']}")
+            if op["op"] == "index":
+                if "err" in impl:
+                    kind = impl["err"]
+                elif "c" in impl["ok"]:
+                    kind = "a cell"
+                else:
+                    kind = "triangle of %s cells" % ("0" if not impl["ok"]["t"] else "1" if len(impl["ok"]["t"]) == 1 else ">1")
+                ctx.count(f"index/{op['recv']}/result={kind}")
 
         # --- clip: several bounds together, and single bounds (inclusivity of each)
         for k in range(2 * n_clip):
@@ -408,6 +547,13 @@ def correspondence(ctx):
             add(wire, tri_dump(res))
             ctx.count(f"clip/unit={kw.get('dev_lag_unit', '<default>')}")
             ctx.count(f"clip/nbounds={len([k for k in kw if k != 'dev_lag_unit'])}")
+            if unit_kind(kw.get("dev_lag_unit", "month")) == "month":
+                for nm in ("min_dev", "max_dev"):
+                    if nm in kw:
+                        whole = isinstance(kw[nm], (int, np.integer))
+                        frac = any(c.dev_lag("month") % 1 != 0 for c in t.cells)
+                        ctx.count(f"clip/month {nm}: {'integer' if whole else 'float'} bound, "
+                                  f"{'fractional' if frac else 'whole'} lags in the triangle")
 
         # --- complementary clips / filters partition the triangle (on the implementation)
         b = date_candidates(rng, t, "evaluation_date")
@@ -430,6 +576,25 @@ def correspondence(ctx):
                 what=f"clip(max_dev={n}) / clip(min_dev={n + 1}) [{unit}]")
         else:
             ctx.fail("clip with a single lag bound raised", {"cells": wcells, "bound": n, "unit": unit})
+        # the same in months, with a whole number of months as the bound (complement taken with the
+        # cells' own dev_lag floats, so no rounding question arises)
+        lbm = lag_bound(rng, t, "month", p_int=1.0)
+        if lbm is not None:
+            bm = lbm[0]
+            a1 = call(t.clip, min_dev=bm, **({} if rng.random() < 0.5 else {"dev_lag_unit": rng.choice(["month", "months"])}))
+            a2 = call(t.filter, lambda c: c.dev_lag("month") < bm)
+            if a1[0] == "ok" and a2[0] == "ok":
+                add({"op": "partition", "a": w_cells(a1[1].cells), "b": w_cells(a2[1].cells)}, None,
+                    what=f"clip(min_dev={bm!r}) / filter(dev_lag('month') < {bm!r})")
+            else:
+                ctx.fail("clip with a single month-lag bound raised", {"cells": wcells, "bound": int(bm)})
+            a1 = call(t.clip, max_dev=bm, dev_lag_unit=rng.choice(["month", "months", "Month"]))
+            a2 = call(t.filter, lambda c: c.dev_lag("month") > bm)
+            if a1[0] == "ok" and a2[0] == "ok":
+                add({"op": "partition", "a": w_cells(a1[1].cells), "b": w_cells(a2[1].cells)}, None,
+                    what=f"clip(max_dev={bm!r}) / filter(dev_lag('month') > {bm!r})")
+            else:
+                ctx.fail("clip with a single month-lag bound raised", {"cells": wcells, "bound": int(bm)})
         b = date_candidates(rng, t, "period_start")
         a1 = call(t.clip, min_period=b)
         a2 = call(t.filter, lambda c: c.period_start < b)
@@ -461,10 +626,36 @@ def correspondence(ctx):
         if not ctx.thorough and len(key_lists) > 7:
             key_lists = rng.sample(key_lists, 7)
         for ks in key_lists:
-            add({"op": "select", "keys": ks}, tri_dump(run(t.select, ks)))
+            res = run(t.select, ks)
+            add({"op": "select", "keys": ks}, tri_dump(res))
+            if res[0] == "ok":
+                # derived accessors of the OUTPUT describe the output's cells (read on the input first)
+                call(lambda: (t.num_samples, t.has_consistent_values_shapes))
+                got = (call(lambda: res[1].num_samples), call(lambda: res[1].has_consistent_values_shapes))
+                want = (recomputed_num_samples(res[1].cells), ("ok", recomputed_consistent_shapes(res[1].cells)))
+                if got != want:
+                    ctx.fail("select: num_samples / has_consistent_values_shapes of the result do not describe its cells",
+                             {"cells": wcells, "op": {"op": "select", "keys": ks}}, {"got": repr(got), "want": repr(want)})
 
         # --- right_edge, slices
-        add({"op": "rightEdge"}, tri_dump(run(lambda: t.right_edge)))
+        re_res = run(lambda: t.right_edge)
+        add({"op": "rightEdge"}, tri_dump(re_res))
+        # slice_period_rows (the same grouping, exposed as an iterator): rows partition the triangle,
+        # every row is one (slice, period) in evaluation order, and the row ends are the right edge
+        # (which the Lean Spec judges above)
+        st, rows = call(lambda: list(t.slice_period_rows))
+        if st == "ok" and re_res[0] == "ok":
+            ok = (sorted(id(c) for _, row in rows for c in row) == sorted(id(c) for c in t.cells)
+                  and len({k for k, _ in rows}) == len(rows)
+                  and all(row and all((c.metadata, c.period) == k for c in row)
+                          and all(a.evaluation_date <= b.evaluation_date for a, b in zip(row, row[1:]))
+                          for k, row in rows)
+                  and sorted(id(row[-1]) for _, row in rows) == sorted(id(c) for c in re_res[1].cells))
+            if not ok:
+                ctx.fail("slice_period_rows: rows are not the (slice, period) rows in evaluation order ending in the right edge",
+                         {"cells": wcells}, None)
+        elif st != "ok":
+            ctx.fail("slice_period_rows raised", {"cells": wcells}, rows)
         st, sl = run(lambda: t.slices)
         try:
             add({"op": "slices"}, {"ok": [[w_meta(m), w_cells(v.cells)] for m, v in sl.items()]} if st == "ok" else {"err": sl})
@@ -539,14 +730,135 @@ def correspondence(ctx):
         st, r = run(t.extract, lambda c: c.evaluation_date.toordinal())
         add({"op": "extractOrd"}, {"ok": [int(x) for x in r]} if st == "ok" else {"err": r})
 
+        # --- the other index shapes of Triangle.__getitem__: int (also bool), positional slice
+        # (with / without step), tuples of the wrong length, objects without len(), and 3-tuples
+        # whose components are arbitrary objects (falsy / list / string / non-trivial slice / date as
+        # metadata; falsy slice ends, None, Metadata, numbers as period / evaluation)
+        n = len(t.cells)
+        for k in range(6 if ctx.thorough else 3):
+            py, w = pos_index(rng, n)
+            add({"op": "index", "recv": "T", "idx": w}, item_dump(run(lambda: t[py])))
+            ctx.count(f"index/T/{'int' if 'int' in w else 'pos-step' if w['pos'][2] is not None else 'pos'}")
+        py, w = malformed_index(rng, t, 3)
+        add({"op": "index", "recv": "T", "idx": w}, item_dump(run(lambda: t[py])))
+        ctx.count("index/T/malformed")
+        for k in range(6 if ctx.thorough else 3):
+            if rng.random() < 0.3:
+                prime(rng)
+                ctx.count("stream/primed")
+            pp, pw = date_comp(rng, t, "period_start", True)
+            ep, ew = date_comp(rng, t, "evaluation_date", False)
+            mp, mw = meta_comp(rng, t, metas)
+            if k == 0 and t.cells and rng.random() < 0.5:
+                c = rng.choice(t.cells)      # three scalars: a Cell (or IndexError with a foreign metadata)
+                pp, pw = c.period_start, {"d": w_date(c.period_start)}
+                ep, ew = c.evaluation_date, {"d": w_date(c.evaluation_date)}
+            ix = (pp, ep, mp) if rng.random() < 0.85 else [pp, ep, mp]     # a list works like a tuple
+            add({"op": "index", "recv": "T", "idx": {"tuple": [pw, ew, mw]}}, item_dump(run(lambda: t[ix])))
+            ctx.count(f"index/T/tuple3 m={mw if isinstance(mw, str) else sorted(mw)[0]}")
+
+        # --- is_right_edge_ragged
+        st, r = run(lambda: t.is_right_edge_ragged)
+        add({"op": "ragged"}, {"ok": bool(r)} if st == "ok" else {"err": r})
+
+        # --- TriangleSlice: the constructor (directly and through triangle_to_slice) on the whole
+        # triangle — accepted exactly when there is at most one slice
+        st, r = run(triangle_to_slice, t)
+        add({"op": "sliceOf"}, tri_dump((st, r)))
+        if st == "ok" and type(r) is not TriangleSlice:
+            ctx.fail("triangle_to_slice: the result is not a TriangleSlice", {"cells": wcells}, type(r).__name__)
+        shuffled = list(cells)
+        rng.shuffle(shuffled)
+        add({"op": "sliceOf", "cells": w_cells(shuffled)}, tri_dump(run(bermuda.TriangleSlice, rng.choice([shuffled, tuple(shuffled)]))))
+        ctx.count(f"sliceOf/whole-triangle slices={min(desc['slices'], 2)}{'+' if desc['slices'] > 2 else ''}")
+
         reqs.append({"cells": wcells, "ops": ops})
-        cases.append((wcells, ops, info, desc, w_cells(t.cells)))
+        cases.append((wcells, ops, info, desc, w_cells(t.cells), None))
+
+        # --- TriangleSlice stream: single-slice triangles obtained from `Triangle.slices` +
+        # triangle_to_slice, from the constructor on a slice's cells (sorted or shuffled), and from
+        # indexing a TriangleSlice; indexed with every index shape
+        sl = t.slices
+        chosen = rng.sample(list(sl), min(len(sl), 1 if not ctx.thorough else 2)) if sl else [None]
+        pending = []
+        for m in chosen:
+            if m is None:
+                raw, how = [], "empty"
+                st, ts = call(TriangleSlice, [])
+            else:
+                how = rng.choice(["triangle_to_slice(slices[m])", "TriangleSlice(slices[m].cells)", "TriangleSlice(shuffled cells)"])
+                raw = [c for c in cells if c.metadata == m]
+                if how.startswith("triangle_to_slice"):
+                    st, ts = call(triangle_to_slice, sl[m])
+                elif how.startswith("TriangleSlice(slices"):
+                    st, ts = call(TriangleSlice, sl[m].cells)
+                else:
+                    st, ts = call(bermuda.TriangleSlice, raw)
+            if st != "ok":
+                ctx.fail("TriangleSlice refuses the cells of a single slice", {"cells": w_cells(raw), "how": how}, ts)
+                continue
+            pending.append((ts, raw, how, 0))
+        while pending:
+            ts, raw, how, depth = pending.pop()
+            ctx.count(f"slice/from={how}")
+            ops, info = [], []
+            sdesc = dict(desc, slices=1, layout=desc["layout"] + "/TriangleSlice")
+            n = len(ts.cells)
+            results = []
+            for k in range(10 if ctx.thorough else 6):
+                if rng.random() < 0.3:
+                    prime(rng)
+                    ctx.count("stream/primed")
+                pp, pw = date_comp(rng, ts, "period_start", True)
+                ep, ew = date_comp(rng, ts, "evaluation_date", False)
+                if k == 0 and ts.cells:
+                    c = rng.choice(ts.cells)     # two dates addressing an existing cell: a Cell comes back
+                    pp, pw = c.period_start, {"d": w_date(c.period_start)}
+                    ep, ew = c.evaluation_date, {"d": w_date(c.evaluation_date)}
+                ix = (pp, ep) if rng.random() < 0.85 else [pp, ep]
+                res = run(lambda: ts[ix])
+                add({"op": "index", "recv": "S", "idx": {"tuple": [pw, ew]}}, item_dump(res))
+                ctx.count(f"index/S/tuple2 {sorted(pw)[0] if isinstance(pw, dict) else pw}{sorted(ew)[0] if isinstance(ew, dict) else ew}")
+                results.append(res)
+            for k in range(2):
+                py, w = pos_index(rng, n)
+                res = run(lambda: ts[py])
+                add({"op": "index", "recv": "S", "idx": w}, item_dump(res))
+                ctx.count(f"index/S/{'int' if 'int' in w else 'pos-step' if w['pos'][2] is not None else 'pos'}")
+                results.append(res)
+            py, w = malformed_index(rng, ts, 2)
+            add({"op": "index", "recv": "S", "idx": w}, item_dump(run(lambda: ts[py])))
+            ctx.count("index/S/malformed")
+            res = run(slice_to_triangle, ts)
+            add({"op": "sliceToTriangle"}, tri_dump(res))
+            if res[0] == "ok" and type(res[1]) is not Triangle:
+                ctx.fail("slice_to_triangle: the result is not a plain Triangle", {"cells": w_cells(raw)}, type(res[1]).__name__)
+            # what comes back from indexing a TriangleSlice with a slice is a TriangleSlice whose
+            # derived accessors describe ITS cells; index it again (chained indexing)
+            for st, r in results:
+                if st != "ok" or not isinstance(r, Triangle):
+                    continue
+                if type(r) is not TriangleSlice:
+                    ctx.fail("TriangleSlice.__getitem__ with a slice: the result is not a TriangleSlice",
+                             {"cells": w_cells(raw), "how": how}, type(r).__name__)
+                    continue
+                acc = call(lambda: (len(r.slices), r.periods, r.metadata, r.evaluation_dates))
+                want = (len({c.metadata for c in r.cells}), sorted({c.period for c in r.cells}),
+                        sorted({c.metadata for c in r.cells}), sorted({c.evaluation_date for c in r.cells}))
+                if acc != ("ok", want):
+                    ctx.fail("accessors of an indexed TriangleSlice do not describe its cells",
+                             {"cells": w_cells(raw), "result": w_cells(r.cells)}, repr(acc)[:300])
+                if depth == 0 and len(r.cells) > 1 and rng.random() < 0.25:
+                    pending.append((r, list(r.cells), "TriangleSlice[...] result", 1))
+            wraw = w_cells(raw)
+            reqs.append({"cells": wraw, "ctor": "slice", "ops": ops})
+            cases.append((wraw, ops, info, sdesc, w_cells(ts.cells), "slice"))
 
     outs = drv.run(reqs)
 
-    for (wcells, ops, info, desc, tcells), out in zip(cases, outs):
+    for (wcells, ops, info, desc, tcells, ctor), out in zip(cases, outs):
         if "ok" not in out["t"] or canon(out["t"]["ok"]) != canon(tcells):
-            ctx.disagree("Triangle(cells).cells", {"cells": wcells}, out["t"], tcells)
+            ctx.disagree("TriangleSlice(cells).cells" if ctor else "Triangle(cells).cells", {"cells": wcells}, out["t"], tcells)
             continue
         nontriv = len(tcells) > 1
         for op, extra, res in zip(ops, info, out["results"]):
@@ -554,8 +866,10 @@ def correspondence(ctx):
             impl = op["impl"]
             args = {k: v for k, v in op.items() if k not in ("impl",)}
             case = {"cells": wcells, "op": args}
-            ctx.case(digest=json.dumps([canon(wcells), args], sort_keys=True), nontrivial=nontriv,
-                     sample={"op": args, "n_cells": len(tcells), **desc} if name in ("clip", "getItem") else None)
+            if ctor:
+                case["receiver"] = "TriangleSlice(cells)"
+            ctx.case(digest=json.dumps([canon(wcells), ctor, args], sort_keys=True), nontrivial=nontriv,
+                     sample={"op": args, "n_cells": len(tcells), **desc} if name in ("clip", "getItem", "index") else None)
             model, spec = res["model"], res["spec"]
             if name == "partition":
                 if spec is not True:
@@ -574,24 +888,24 @@ def correspondence(ctx):
             else:
                 m_ok, i_ok = model, impl
             if ("err" in m_ok) != ("err" in i_ok):
-                if name == "getItem" or name == "clip":
+                if name in ("getItem", "clip", "index", "sliceOf"):
                     ctx.fail(f"{name}: accepts/refuses differently from the model of its contract", case,
                              {"impl": i_ok, "model": m_ok})
                 else:
                     ctx.disagree(name, case, m_ok, i_ok)
                 continue
             if "err" in m_ok:
-                if name == "getItem" and m_ok["err"] != i_ok["err"]:
-                    ctx.disagree("getItem error class", case, m_ok, i_ok)
+                if name in ("getItem", "index", "sliceOf") and m_ok["err"] != i_ok["err"]:
+                    ctx.disagree(f"{name} error class", case, m_ok, i_ok)
                 continue
             a, b = m_ok["ok"], i_ok["ok"]
-            if name in ("clip", "filter", "select", "rightEdge"):
+            if name in ("clip", "filter", "select", "rightEdge", "sliceOf", "sliceToTriangle"):
                 same = canon(a) == canon(b)
             elif name in ("slices", "split"):
                 ka = sorted(([json.dumps(k, sort_keys=True), canon(v)] for k, v in a), key=lambda kv: kv[0])
                 kb = sorted(([json.dumps(k, sort_keys=True), canon(v)] for k, v in b), key=lambda kv: kv[0])
                 same = ka == kb
-            elif name == "getItem":
+            elif name in ("getItem", "index"):
                 if ("t" in a) != ("t" in b):
                     same = False
                 elif "t" in a:
@@ -615,13 +929,27 @@ if __name__ == "__main__":
              "triangle's own dates and lags, +-1 day, +-1 month, out of range, date.min/max; single-bound clips; "
              "complementary clip/filter pairs; mask filters; select on every subset of fields; right_edge; slices; "
              "split on every subset of detail keys; t[p, e, m] with scalar/slice/None/':'/Metadata indices; "
+             "t[index] with every other index shape (int/bool positions in and out of range, positional slices with and "
+             "without step, tuples/lists/strings of the wrong length, objects without len(), 3-tuples whose metadata "
+             "component is falsy / ':' / a Metadata / a list / a string / a non-trivial slice / a date and whose period "
+             "slice ends are None, 0, '' or False); is_right_edge_ragged; slice_period_rows; "
+             "TriangleSlice: constructor and triangle_to_slice on the whole triangle (refused iff > 1 slice) and on "
+             "single slices (Triangle.slices values, sorted or shuffled cells, list or tuple), slice_to_triangle, "
+             "slice[p, e] with dates / open-ended / reversed / falsy-ended slices / dates not in the triangle / non-dates, "
+             "int and positional-slice indices, malformed indices, chained indexing of the returned TriangleSlice; "
+             "month-lag clip bounds are floats (own lags, +-1) or whole numbers given as int / numpy.int64 (calendar-month "
+             "offset, floor / ceiling of the fractional lag, +-1) with month-unit complement checks; "
              "extract}; on 40 % of the triangles every operation is called twice on the same object with the first "
-             "result modified in place in between (sequence stream). distinct = distinct (canonical cells, operation+arguments); non-trivial = more than one cell",
+             "result modified in place in between, and 30 % of the index calls are preceded by priming calls of the same "
+             "methods on other objects (sequence stream). distinct = distinct (canonical cells, receiver class, operation+arguments); non-trivial = more than one cell",
         assumptions=["month lags are IEEE doubles in the implementation and exact rationals in the model: lag bounds "
                      "are the triangle's own lags (bit-identical floats) and lags +-1, kept only when the float and "
                      "the exact comparison agree on every cell of the triangle (IEEE rounding is outside the model)",
-                     "the metadata index of t[p, e, m] is None, ':' or a Metadata; period/evaluation indices are "
-                     "dates, date slices or a non-date (refused)",
+                     "slice ends of an EVALUATION index are None or dates (a falsy non-None end such as 0 would reach "
+                     "clip's `is not None` test and raise TypeError lazily; not modelled); slice ends of a PERIOD index "
+                     "are None, another falsy object or dates; datetime.datetime instances are not used as indices",
+                     "positional slices WITH a step are compared with the model only (C01's getSliceStep); the Spec "
+                     "predicate posSliceSpec covers t[i:j]",
                      "dev_lag bounds have the type of the unit (number for month/day, timedelta for timedelta)"],
         trusted=["toolz.groupby keeps first-occurrence key order; Python filter() is lazy (Model/Select.lean)",
                  "numpy object-array construction in extract (entries are read back per cell)"],
